@@ -129,23 +129,43 @@ def init_rmw(prog, res, f):
                      % (f.name, names[0]), {"path_blocks": w})
 
 
+def _accumulate_for(prog, g, val):
+    """constant propagation through accumulate for one sample type: (visited blocks, return values)"""
+    from .. import linear as L
+    f32 = dict(prog.enum_values("SampleType") or []).get("SampleType_f32")
+    an = L.Analysis(prog)
+    an.inline_also = {"bytes_of_type", "bits_of_type"}
+    st = L.State()
+    accn, inn = g.params[0]["n"], g.params[1]["n"]
+    st.cells["%s->shape.type" % inn] = L.lconst(val)
+    if f32 is not None:
+        st.cells["%s->shape.type" % accn] = L.lconst(f32)
+    rets = an.run(g, st)
+    visited = {bid for (fn, bid) in an.blocks_visited if fn == g.name}
+    vals = [(int(rv.get(L.ONE, 0)) if (rv is not None and L.is_const(rv)) else None) for rv, s_ in rets]
+    loops = [(h, body) for h, body in paths.natural_loops(g) if h in visited and any(x in visited for x in body if x != h)]
+    return visited, vals, loops
+
+
 def accumulate_exhaustive(prog, res):
+    """T-EXH: for every integer sample type, accumulate - evaluated by constant
+    propagation with in->shape.type fixed (through switch / if chains / a
+    dispatch on bytes_of_type) - runs a per-pixel loop and reports success."""
     g = prog.func("accumulate")
     res.touched(g)
     want = tables.enum_below_sentinel(prog, "SampleType")
-    sws = [s for s in tables.switches(g) if s["enum"] == "SampleType"]
-    if not sws:
-        raise AnalysisBroken("accumulate no longer switches over SampleType")
-    sw = sws[0]
+    if not want or len(g.params) < 2:
+        raise AnalysisBroken("accumulate(acc, in) / the SampleType enumerators were not found")
     for name, val in want:
         if name == "SampleType_f32":
             continue  # the accumulator's own type; not an integer input
         inst = "accumulate handles %s" % name
-        if val in sw["cases"]:
-            res.oblige("T-EXH", inst, True, "explicit case", "%s:%s" % (g.file, sw["line"]))
+        visited, vals, loops = _accumulate_for(prog, g, val)
+        if loops and vals and all(v not in (0, None) for v in vals):
+            res.oblige("T-EXH", inst, True, "reaches %d per-pixel loop(s) and returns non-zero" % len(loops), g.loc())
         else:
-            res.fail("T-EXH", inst, "T-EXH|accumulate|%s" % name, "%s:%s" % (g.file, sw["line"]),
-                     "accumulate has no case for %s: frames of that integer type abort the averaging" % name)
+            res.fail("T-EXH", inst, "T-EXH|accumulate|%s" % name, g.loc(),
+                     "accumulate has no kernel for %s (no per-pixel loop is reached or it reports failure): frames of that integer type abort the averaging" % name)
 
 
 def window_rules(prog, res, f):
@@ -495,36 +515,41 @@ def kernels(prog, res, rule="R-KERNEL"):
                          "%s: %s: pixels are skipped, summed twice or accessed out of bounds, so the emitted frame is not the mean" % (fname, "; ".join(sorted(set(problems)))))
             else:
                 res.oblige(rule, inst, True, "", "%s:%s" % (f.file, line))
-    # element type per sample type
+    # element type per sample type: the loop reached for that type reads y with the matching element
     f = prog.func("accumulate")
-    sws = [s_ for s_ in tables.switches(f) if s_["enum"] == "SampleType"]
-    if not sws:
-        raise AnalysisBroken("accumulate no longer switches over SampleType")
-    sw = sws[0]
-    for val, name in sorted(sw["cases"].items()):
+    want_types = tables.enum_below_sentinel(prog, "SampleType") or []
+    for name, val in want_types:
         want = ELEMENT_TYPE.get(name)
         if want is None:
             continue
-        # follow fall-through blocks to the declaration of the input pointer
-        b = sw["targets"].get(val)
-        seen = set()
+        visited, vals, loops = _accumulate_for(prog, f, val)
         got = None
-        while b is not None and b not in seen and got is None:
-            seen.add(b)
-            for st_ in f.blocks[b].stmts:
-                for lv, op, rhs, w in ir.writes_of(st_):
-                    if lv.get("k") == "var" and lv.get("pd") and isinstance(rhs, dict) and \
-                            any(y.get("k") == "mem" and y.get("f") == "data" for y in ir.walk(rhs)):
-                        t = lv.get("t", "").replace("const", "").replace("*", "").strip()
-                        got = CTYPE.get(t, t)
-            nxt = f.blocks[b].succ_ids()
-            b = nxt[0] if len(nxt) == 1 else None
+        for head, body in loops:
+            for b_ in body:
+                for st_ in f.blocks[b_].stmts:
+                    for lv, op, rhs, w in ir.writes_of(st_):
+                        if ir.strip(lv).get("k") not in ("idx", "deref") or not isinstance(rhs, dict):
+                            continue
+                        for y in ir.walk(rhs):
+                            base = None
+                            if isinstance(y, dict) and y.get("k") == "idx":
+                                base = ir.strip(y["b"])
+                            elif isinstance(y, dict) and y.get("k") == "deref":
+                                base = ir.strip(y["e"])
+                                while isinstance(base, dict) and base.get("k") in ("asg", "un") and "e" in base:
+                                    base = ir.strip(base["e"])
+                            if isinstance(base, dict) and base.get("k") == "var" and base.get("pd") and "float" not in base.get("t", ""):
+                                t = base.get("t", "").replace("const", "").replace("*", "").strip()
+                                got = CTYPE.get(t, t)
         inst = "accumulate: %s pixels are read with a %d-byte %s element" % (name, want[0], "signed" if want[1] else "unsigned")
         if got == want:
             res.oblige(rule, inst, True, "", f.loc())
+        elif not loops:
+            continue   # reported by T-EXH
         else:
+            gshow = ("a %d-byte %s element" % (got[0], "signed" if got[1] else "unsigned")) if isinstance(got, tuple) else str(got)
             res.fail(rule, inst, "%s|accumulate|%s" % (rule, name), f.loc(),
-                     "accumulate reads %s pixels as %s: every value of the mean is wrong" % (name, got))
+                     "accumulate reads %s pixels as %s: every value of the mean is wrong" % (name, gshow))
 
 
 def window_details(prog, res, f, rule="R-WINDOW"):
@@ -755,6 +780,6 @@ def run(ctx, res):
     res.require_min("O-INIT-RMW", 1)
     res.require_min("T-EXH", 5)
     res.require_min("R-WINDOW", 16)
-    res.require_min("R-KERNEL", 12)
+    res.require_min("R-KERNEL", 9)
     res.require_min("PAIR", 1)
     res.require_min("R-CONSUME", 1)
